@@ -115,6 +115,14 @@ pub fn dispatch(ctx: &Ctx, rep: &mut Report) {
                 crate::onris::c14::run(ctx, rep);
             }
         },
+        "C15" => {
+            if fm {
+                crate::onfm::c15::run(ctx, rep);
+            }
+            if ris {
+                crate::onris::c15::run(ctx, rep);
+            }
+        },
         other => {
             eprintln!("unknown check {other}");
             std::process::exit(3);
